@@ -238,7 +238,12 @@ func GenC11(r *hx.Rand, engine string) Input {
 			st("call", "start", "", 0), st("sleep", "", "", 3000), st("call", "stop", "", 0))
 	case 5: // a user start while the pipeline is recovering
 		in.Shape = "start-while-recovering"
-		gate := []string{"dispense.src", "src.open", "st.Recovering"}[r.Intn(3)]
+		// (the plugin-dispensing gate, which lets the default engine build two runs at once, is exercised by
+		// the corpus only: the acceptor's state set for two simultaneously live runs is large)
+		gate := []string{"src.open", "st.Recovering"}[r.Intn(2)]
+		if engine == "v1" {
+			gate = "st.Recovering"
+		}
 		s = append(s, st("call", "start", "", 0), st("await", "open", "", 0), st("script", "src.read", "err", 0),
 			st("emit", "", "", 1), st("await", "recovering", "", 10000), st("hold", gate, "", 0), st("call", "start", "", 0),
 			st("sleep", "", "", r.Range(1000, 3*c.MaxUs)), st("release", gate, "", 0), st("sleep", "", "", r.Range(2000, 30000)),
